@@ -175,28 +175,28 @@ cfoldBCall(Foam bcall)
 		assert(foamTag(argv[0]) == FOAM_Bool);
 		assert(foamTag(argv[1]) == FOAM_Bool);
 		foam = foamNewBool(argv[0]->foamBool.BoolData &&
-				  argv[0]->foamBool.BoolData);
+				  argv[1]->foamBool.BoolData);
 		break;
 	  case FOAM_BVal_BoolOr:
 		if (!cfoldFoldAll) break;
 		assert(foamTag(argv[0]) == FOAM_Bool);
 		assert(foamTag(argv[1]) == FOAM_Bool);
 		foam = foamNewBool(argv[0]->foamBool.BoolData ||
-				  argv[0]->foamBool.BoolData);
+				  argv[1]->foamBool.BoolData);
 		break;
 	  case FOAM_BVal_BoolEQ:
 		if (!cfoldFoldAll) break;
 		assert(foamTag(argv[0]) == FOAM_Bool);
 		assert(foamTag(argv[1]) == FOAM_Bool);
 		foam = foamNewBool(argv[0]->foamBool.BoolData ==
-				  argv[0]->foamBool.BoolData);
+				  argv[1]->foamBool.BoolData);
 		break;
 	  case FOAM_BVal_BoolNE:
 		if (!cfoldFoldAll) break;
 		assert(foamTag(argv[0]) == FOAM_Bool);
 		assert(foamTag(argv[1]) == FOAM_Bool);
 		foam = foamNewBool(argv[0]->foamBool.BoolData !=
-				  argv[0]->foamBool.BoolData);
+				  argv[1]->foamBool.BoolData);
 		break;
 		
 	  case FOAM_BVal_CharSpace:
@@ -220,40 +220,40 @@ cfoldBCall(Foam bcall)
 	  case FOAM_BVal_CharIsDigit:
 		if (!cfoldFoldAll) break;
 		assert(foamTag(argv[0]) == FOAM_Char);
-		foam = foamNewBool(isdigit(argv[0]->foamChar.CharData));
+		foam = foamNewBool(isdigit(argv[0]->foamChar.CharData) != 0);
 		break;
 	  case FOAM_BVal_CharIsLetter:
 		if (!cfoldFoldAll) break;
 		assert(foamTag(argv[0]) == FOAM_Char);
-		foam = foamNewBool(isalpha(argv[0]->foamChar.CharData));
+		foam = foamNewBool(isalpha(argv[0]->foamChar.CharData) != 0);
 		break;
 	  case FOAM_BVal_CharEQ:
 		if (!cfoldFoldAll) break;
 		assert(foamTag(argv[0]) == FOAM_Char);
 		assert(foamTag(argv[1]) == FOAM_Char);
 		foam = foamNewBool(argv[0]->foamChar.CharData ==
-				  argv[0]->foamChar.CharData);
+				  argv[1]->foamChar.CharData);
 		break;
 	  case FOAM_BVal_CharNE:
 		if (!cfoldFoldAll) break;
 		assert(foamTag(argv[0]) == FOAM_Char);
 		assert(foamTag(argv[1]) == FOAM_Char);
 		foam = foamNewBool(argv[0]->foamChar.CharData !=
-				  argv[0]->foamChar.CharData);
+				  argv[1]->foamChar.CharData);
 		break;
 	  case FOAM_BVal_CharLT:
 		if (!cfoldFoldAll) break;
 		assert(foamTag(argv[0]) == FOAM_Char);
 		assert(foamTag(argv[1]) == FOAM_Char);
 		foam = foamNewBool(argv[0]->foamChar.CharData <
-				  argv[0]->foamChar.CharData);
+				  argv[1]->foamChar.CharData);
 		break;
 	  case FOAM_BVal_CharLE:
 		if (!cfoldFoldAll) break;
 		assert(foamTag(argv[0]) == FOAM_Char);
 		assert(foamTag(argv[1]) == FOAM_Char);
 		foam = foamNewBool(argv[0]->foamChar.CharData <=
-				  argv[0]->foamChar.CharData);
+				  argv[1]->foamChar.CharData);
 		break;
 	  case FOAM_BVal_CharLower:
 		if (!cfoldFoldAll) break;
@@ -549,7 +549,7 @@ cfoldBCall(Foam bcall)
 	  case FOAM_BVal_SIntIsOdd:
 		if (!cfoldFoldAll) break;
 		assert(foamTag(argv[0]) == FOAM_SInt);
-		foam = foamNewBool((argv[0]->foamSInt.SIntData % 2) == 1);
+		foam = foamNewBool((argv[0]->foamSInt.SIntData % 2) != 0);
 		break;
 	  case FOAM_BVal_SIntEQ:
 		if (!cfoldFoldAll) break;
